@@ -17,6 +17,11 @@ def main(workers):
     os.environ["MSWEEP_RESYNC"] = "1"
     ws = [mutsweep.setup_worker(i) for i in range(workers)]
     seeds = sorted(os.path.basename(d) for d in glob.glob("/verif/seeded/C*-*"))
+    prev = {}
+    if os.environ.get("REGRESS_ONLY_FAILED") and os.path.exists("/verif/seeded/REGRESSION.json"):
+        # re-run only what was not reported last time (e.g. after a run that was starved of memory); keep the other results
+        prev = json.load(open("/verif/seeded/REGRESSION.json"))["results"]
+        seeds = [s for s in seeds if s not in prev or "error" in prev[s] or any(v["exit"] != 1 for v in prev[s].values())]
     q = queue.Queue()
     for s in seeds:
         q.put(s)
@@ -46,6 +51,7 @@ def main(workers):
     ts = [threading.Thread(target=work, args=(w,)) for w in ws]
     [t.start() for t in ts]
     [t.join() for t in ts]
+    res = {**prev, **res}
     bad = {s: r for s, r in res.items() if "error" in r or any(v["exit"] != 1 for v in r.values())}
     json.dump({"seeds": len(res), "all_reported": not bad, "not_reported": bad, "results": dict(sorted(res.items()))}, open("/verif/seeded/REGRESSION.json", "w"), indent=1)
     print("seeds", len(res), "not reported:", sorted(bad))
